@@ -310,7 +310,7 @@ def build():
             ('first_match', '''(found_pos_ matches Some(i) ==> i < pos_ && i == first_at(folded_height_after@, h)) && (found_pos_ is None ==> forall|j: int| 0 <= j < pos_ ==> folded_height_after@[j] != h)''')])
     # ------------------------------------------------------------------ verify_fri_circuit[final_query_point]: which point the final polynomial is evaluated at
     fp = u.extract(V, '', 'verify_fri_circuit', 'verify_fri_circuit[final_query_point]')
-    slice_loop_body(fp, r'for \(q, query_proof\) in fri_proof_targets\.query_proofs\.iter\(\)\.enumerate\(\) \{',
+    slice_loop_body(fp, r'for \(q, query_proof\) in fri_proof_targets\.query_proofs\.iter\(\)\.enumerate\(\)(?:\.skip\(\w+\))? \{',
                     'the per-query loop (second of the two loops over the query proofs); everything but the computation of the final query point is dropped by the projection', nth=1, of=2)
     project_on(fp, r'let ', {'final_query_point'}, 'statements of the per-query loop body that do not mention final_query_point')
     fp.rewrite_re('R13', r'let final_poly_eval\s*=\s*evaluate_polynomial\([^;]*\);', '', min_count=0)
